@@ -32,6 +32,18 @@ fn pattern_of(p: &str) -> Option<Vec<bool>> {
     Some(p.split(',').map(|t| t == "1").collect())
 }
 
+/// The harness's own, deliberately minimal, notion of a malformed alist (independent of the parser under test): the header declares
+/// `ncols` columns but the text ends before the last of the `ncols` column lists (fewer than 4 + ncols lines, blank lines counted).
+fn cut_alist(t: &str) -> bool {
+    let Some(h) = t.lines().next() else { return false };
+    let toks: Vec<&str> = h.split_whitespace().collect();
+    if toks.len() != 2 { return false; }
+    match (toks[0].parse::<usize>(), toks[1].parse::<usize>()) {
+        (Ok(nc), Ok(nr)) if (1..=10000).contains(&nc) && (1..=10000).contains(&nr) => t.lines().count() < 4 + nc,
+        _ => false,
+    }
+}
+
 /// child: executes one scenario; every record is flushed BEFORE the C call it describes ("pre") and after it ("post")
 pub fn child(a: &Args) {
     let sc: Value = serde_json::from_str(&std::fs::read_to_string(a.input.as_ref().unwrap()).unwrap()).unwrap();
@@ -159,6 +171,7 @@ fn run_scenario(out: &mut Out, sc: &Value, work: &str, idx: usize) {
         _ => (vec![], 0),
     };
     let base = json!({"kind": sc["kind"], "via": sc["via"], "name": sc["name"], "pat": sc["pat"], "why": sc["why"], "hrows": hrows, "hn": hn,
+        "cut": sc["via"] == "string" && sc["alist"].as_str().map(cut_alist).unwrap_or(false),
         "pat_tokens": if sc["pat"].as_str().unwrap().is_empty() { vec![] } else { sc["pat"].as_str().unwrap().split(',').map(|s| s.to_string()).collect::<Vec<_>>() }});
     let mut k = 0;
     while k < lines.len() {
@@ -247,6 +260,16 @@ pub fn generate(a: &Args) {
     let _ = good;
     let mut bad_alists: Vec<String> = vec!["".into(), "2 2\n1 1\n1 1\n1 1\n3\n1\n1\n2\n".into(), "x y\n".into(), "3 2\n1 1\n".into(), "2 2\n1 1\n1 1\n1 1\n1 x\n2\n".into(), "1 1\n1 1\n1\n1\n2\n1\n".into()];
     for _ in 0..(if th { 200 } else { 30 }) { bad_alists.push(c08::mutate_pub(&mut rng, &good_alist)); }
+    // texts CUT inside the column section (a file copied incompletely): the header promises more column lists than the text holds
+    for (j, src) in [good_alist.clone(), matrix(&systematic_code(12, 4, 9), 12).alist()].iter().enumerate() {
+        let ls: Vec<&str> = src.lines().collect();
+        let nc: usize = ls[0].split_whitespace().next().unwrap().parse().unwrap();
+        for keep in 4..4 + nc {
+            if !(th || (keep + j) % 2 == 0 || keep == 3 + nc) { continue; }
+            let t = ls[..keep].join("\n");
+            bad_alists.push(if keep % 2 == 0 { t + "\n" } else { t });
+        }
+    }
     for (i, t) in bad_alists.iter().enumerate() {
         // outside the property's domain (C02: r >= 1 and n >= r): a text that PARSES to a matrix with more rows than
         // columns makes Encoder::from_h underflow; such texts are only given to the decoder constructor
